@@ -141,9 +141,34 @@ func run(c Case) (o evid.Outcome, err error) {
 	}
 
 	// ---- blocks output
-	s1, err := newSorter(c, rows)
-	if err != nil {
-		return o, err
+	var s1 *sorter.Sorter
+	if c.Reuse {
+		// the sorter has sorted (and spilled) a wider table before: Close, Reset, refill
+		wide := make([][]string, len(rows))
+		for i, r := range rows {
+			wide[i] = append(append([]string{}, r...), fmt.Sprintf("extra-%d", i), "x")
+		}
+		cw := c
+		cw.SetCols = false
+		s1, err = newSorter(cw, wide)
+		if err != nil {
+			return o, err
+		}
+		werr := make(chan error, 4)
+		for range s1.SortedBlocks(context.Background(), nil, werr) {
+		}
+		if err := s1.Close(); err != nil {
+			return o, fmt.Errorf("Close: %v", err)
+		}
+		s1.Reset()
+		if err := fill(s1, c, rows); err != nil {
+			return o, err
+		}
+	} else {
+		s1, err = newSorter(c, rows)
+		if err != nil {
+			return o, err
+		}
 	}
 	spills := len(chunkFiles())
 	errCh := make(chan error, 4)
